@@ -79,11 +79,10 @@ theorem decision_cases (x : Input) :
     decision x = ⟨.none, .none⟩ ∨
     (x.originHeaders.get kContentEncoding = b!"gzip" ∧ (decision x = ⟨.brotli, .gzip⟩ ∨ decision x = ⟨.none, .gzip⟩)) ∨
     ((x.originHeaders.get kContentEncoding = [] ∨ x.originHeaders.get kContentEncoding = b!"identity") ∧
-      (decision x = ⟨.gzip, .none⟩ ∨ decision x = ⟨.brotli, .none⟩)) ∨
-    (inClass_C06_a x = true ∧ decision x = ⟨.brotli, .none⟩) := by
-  unfold decision inClass_C06_a gateOpen
+      (decision x = ⟨.gzip, .none⟩ ∨ decision x = ⟨.brotli, .none⟩)) := by
+  unfold decision
   by_cases hg : (x.flag && canTransform (x.originHeaders.get kCacheControl)) = true
-  · rw [if_pos hg, hg]
+  · rw [if_pos hg]
     generalize x.originHeaders.get kContentEncoding = ce
     generalize x.originHeaders.get kContentType = ct
     unfold getRecompression acceptsEncodingFromString fallbackCompressionWithDefault
@@ -112,16 +111,16 @@ theorem respond_eq (E : Ext) (x : Input) (rc : Recompression) (h : decision x = 
         { status := 200, headers := rewriteAdd rc (rewriteRemove rc (copied x)), body := encode E rc.add plain } := by
   unfold respond handle; rw [h]; rfl
 
-/-- C06-a excluded: outside the cell (client class gzip, origin `br`) the content is preserved,
-    for all strings, all bodies and every codec satisfying the round-trip laws. -/
-theorem content_preserved_partial (E : Ext) (hE : E.Lawful) (x : Input)
-    (hcls : inClass_C06_a x = false) : contentOk E x (respond E x) = true := by
+/-- **Clause 1 at full strength** (no class excluded since the repair of C06-a): the content is
+    preserved for all strings, all bodies and every codec satisfying the round-trip laws. -/
+theorem content_preserved : StatementContent := by
+  intro E hE x
   unfold contentOk
   cases hdec : decoded E (x.originHeaders.get kContentEncoding) x.originBody with
   | none => rfl
   | some c =>
     simp only
-    rcases decision_cases x with h | ⟨hce, h | h⟩ | ⟨hce, h | h⟩ | ⟨ha, _⟩
+    rcases decision_cases x with h | ⟨hce, h | h⟩ | ⟨hce, h | h⟩
     · -- pass-through
       rw [respond_eq E x _ h]
       simp [delivered_CE, encode, hdec]
@@ -153,29 +152,32 @@ theorem content_preserved_partial (E : Ext) (hE : E.Lawful) (x : Input)
           simpa [decoded, coding, toLower, lowerByte] using hdec.symm
       rw [respond_eq E x _ h]
       simp [delivered_CE, encode, contentEncodingFromCompressionType, decoded, coding, toLower, lowerByte, hE.br, hc]
-    · rw [ha] at hcls; cases hcls
 
-/-- witness of C06-a: `Accept-Encoding: gzip`, origin `Content-Encoding: br`, rule flag on -/
+/-- regression instance (the former finding C06-a, repaired by a `fix:` commit):
+    `Accept-Encoding: gzip`, origin `Content-Encoding: br`, rule flag on -/
 def witnessA : Input :=
   { flag := true, ae := b!"gzip",
     originHeaders := Header.add (Header.add [] kContentType b!"text/html") kContentEncoding b!"br",
     originBody := toyExt.brEnc b!"hello" }
 
-/-- the model (like the code) delivers Brotli-of-Brotli labelled `br` once -/
-theorem content_fails_witness : contentOk toyExt witnessA (respond toyExt witnessA) = false := by decide
+/-- the model (like the repaired code) passes the origin's Brotli stream through, labelled `br`
+    once (it used to deliver Brotli-of-Brotli under that label); the whole oracle accepts it -/
+example : decision witnessA = ⟨.none, .none⟩ ∧
+    (respond toyExt witnessA).body = toyExt.brEnc b!"hello" ∧
+    (respond toyExt witnessA).headers.get kContentEncoding = b!"br" ∧
+    contentOk toyExt witnessA (respond toyExt witnessA) = true ∧
+    holds toyExt witnessA (respond toyExt witnessA) = true := by decide
 
-theorem witnessA_delivered :
-    (respond toyExt witnessA).body = toyExt.brEnc (toyExt.brEnc b!"hello") ∧
-    (respond toyExt witnessA).headers.get kContentEncoding = b!"br" := by decide
+-- the same cell for any Content-Type and a longer gzip-class Accept-Encoding
+example :
+    let x := { witnessA with ae := b!"gzip, deflate", originHeaders := Header.add (Header.add [] kContentType b!"image/png") kContentEncoding b!"br" }
+    decision x = ⟨.none, .none⟩ ∧ (respond toyExt x).body = x.originBody ∧ contentOk toyExt x (respond toyExt x) = true := by decide
 
-theorem StatementContent_false : ¬ StatementContent := fun h => by
-  have := h toyExt toyExt_lawful witnessA
-  rw [content_fails_witness] at this
-  cases this
-
--- non-vacuity: the hypotheses of the partial theorem hold for a transformed exchange
-example : inClass_C06_a { witnessA with ae := b!"gzip, br", originHeaders := Header.add [] kContentEncoding b!"gzip" } = false ∧
-    decision { witnessA with ae := b!"gzip, br", originHeaders := Header.add [] kContentEncoding b!"gzip" } = ⟨.brotli, .gzip⟩ := by decide
+-- non-vacuity: the theorem speaks about transformed exchanges (gunzip + Brotli; gzip added)
+example : toyExt.Lawful ∧
+    decision { witnessA with ae := b!"gzip, br", originHeaders := Header.add [] kContentEncoding b!"gzip" } = ⟨.brotli, .gzip⟩ ∧
+    decision { witnessA with originHeaders := Header.add [] kContentType b!"text/html" } = ⟨.gzip, .none⟩ :=
+  ⟨toyExt_lawful, by decide, by decide⟩
 
 /-! ### clause 2: the delivered encoding -/
 
@@ -187,9 +189,7 @@ theorem decision_add (x : Input) :
     ((decision x).add = .gzip →
       gateOpen x = true ∧ contains x.ae b!";" = false ∧ contains x.ae b!"br" = false ∧ contains x.ae b!"gzip" = true) ∧
     ((decision x).add = .brotli →
-      gateOpen x = true ∧ contains x.ae b!";" = false ∧
-        (contains x.ae b!"br" = true ∨
-          (contains x.ae b!"gzip" = true ∧ x.originHeaders.get kContentEncoding = b!"br"))) := by
+      gateOpen x = true ∧ contains x.ae b!";" = false ∧ contains x.ae b!"br" = true) := by
   unfold decision gateOpen
   by_cases hg : (x.flag && canTransform (x.originHeaders.get kCacheControl)) = true
   · rw [if_pos hg, hg]
@@ -236,12 +236,10 @@ theorem delivered_encoding_allowed_partial (E : Ext) (x : Input)
       simp [contentEncodingFromCompressionType, coding, toLower, lowerByte, this]
     | brotli =>
       obtain ⟨hg, h1, h2⟩ := hadd.2 hA
-      rcases h2 with h2 | ⟨h3, hce⟩
-      · have : clientLists x.ae b!"br" = true := by
-          simp only [inClass_C06_c, hg, h1, h2] at hcls
-          simpa using hcls
-        simp [contentEncodingFromCompressionType, coding, toLower, lowerByte, this]
-      · simp [contentEncodingFromCompressionType, coding, toLower, lowerByte, hce]
+      have : clientLists x.ae b!"br" = true := by
+        simp only [inClass_C06_c, hg, h1, h2] at hcls
+        simpa using hcls
+      simp [contentEncodingFromCompressionType, coding, toLower, lowerByte, this]
 
 /-- witness of C06-c: `Accept-Encoding: abracadabra` counts as Brotli support -/
 def witnessC : Input :=
@@ -411,7 +409,7 @@ def StatementLength : Prop := ∀ (E : Ext) (x : Input), inDomain E x = true →
 theorem length_holds_model : StatementLength := by
   intro E x hdom
   unfold lengthOk
-  rcases decision_cases x with h | ⟨hce, h⟩ | ⟨_, h⟩ | ⟨_, h⟩
+  rcases decision_cases x with h | ⟨hce, h⟩ | ⟨_, h⟩
   · -- pass-through: nothing transformed
     have : transformed x (respond E x) = false := by
       rw [respond_eq E x _ h]
@@ -430,12 +428,6 @@ theorem length_holds_model : StatementLength := by
       simp [this]
   · have hadd : (decision x).add ≠ .none := by rcases h with h | h <;> simp [h]
     have hrem : (decision x).remove ≠ .gzip := by rcases h with h | h <;> simp [h]
-    have h200 : (respond E x).status = 200 := by
-      rw [respond_eq E x _ rfl]; simp [hrem]
-    have := no_stale_content_length E x (Or.inl hadd) h200
-    simp [this]
-  · have hadd : (decision x).add ≠ .none := by simp [h]
-    have hrem : (decision x).remove ≠ .gzip := by simp [h]
     have h200 : (respond E x).status = 200 := by
       rw [respond_eq E x _ rfl]; simp [hrem]
     have := no_stale_content_length E x (Or.inl hadd) h200
@@ -489,7 +481,7 @@ theorem vary_kept_partial (E : Ext) (x : Input) (hdom : inDomain E x = true)
   by_cases hadd : (decision x).add = .none
   · -- nothing added: the response does not count as "encoding applied"
     have : applied x (respond E x) = false := by
-      rcases decision_cases x with h | ⟨hce, h⟩ | ⟨_, h⟩ | ⟨_, h⟩
+      rcases decision_cases x with h | ⟨hce, h⟩ | ⟨_, h⟩
       · rw [respond_eq E x _ h]; simp [applied, delivered_CE, encode]
       · rcases h with h | h
         · rw [h] at hadd; cases hadd
@@ -501,12 +493,11 @@ theorem vary_kept_partial (E : Ext) (x : Input) (hdom : inDomain E x = true)
             rw [respond_eq E x _ h]
             simp [applied, delivered_CE, hg, coding, toLower]
       · rcases h with h | h <;> rw [h] at hadd <;> cases hadd
-      · rw [h] at hadd; cases hadd
     simp [this]
   · -- an encoding is added: the subset holds whether or not the oracle counts it as applied
     have hrem : (decision x).remove = .gzip → ∃ p, E.gzipDec x.originBody = some p := by
       intro hr
-      rcases decision_cases x with h | ⟨hce, _⟩ | ⟨_, h⟩ | ⟨_, h⟩
+      rcases decision_cases x with h | ⟨hce, _⟩ | ⟨_, h⟩
       · rw [h] at hr; cases hr
       · unfold inDomain at hdom
         rw [hce] at hdom
@@ -514,7 +505,6 @@ theorem vary_kept_partial (E : Ext) (x : Input) (hdom : inDomain E x = true)
         | none => simp [decoded, coding, toLower, lowerByte, hg] at hdom
         | some p => exact ⟨p, rfl⟩
       · rcases h with h | h <;> rw [h] at hr <;> cases hr
-      · rw [h] at hr; cases hr
     have hh : (respond E x).headers = rewriteAdd (decision x) (rewriteRemove (decision x) (copied x)) := by
       rw [respond_eq E x _ rfl]
       by_cases hr : (decision x).remove = .gzip
@@ -592,32 +582,32 @@ example :
     the model's response -/
 def Statement : Prop := ∀ (E : Ext), E.Lawful → ∀ x : Input, holds E x (respond E x) = true
 
-/-- outside the four finding classes the oracle accepts the model's response, for all inputs
-    and every codec satisfying the laws -/
+/-- outside the three remaining finding classes (C06-b, C06-c, C06-d; C06-a is repaired) the
+    oracle accepts the model's response, for all inputs and every codec satisfying the laws -/
 theorem holds_partial (E : Ext) (hE : E.Lawful) (x : Input)
-    (ha : inClass_C06_a x = false) (hb : inClass_C06_b x = false)
+    (hb : inClass_C06_b x = false)
     (hc : inClass_C06_c x = false) (hd : inClass_C06_d x = false) :
     holds E x (respond E x) = true := by
   unfold holds
   cases hdom : inDomain E x with
   | false => rfl
   | true =>
-    simp [content_preserved_partial E hE x ha, delivered_encoding_allowed_partial E x hc,
+    simp [content_preserved E hE x, delivered_encoding_allowed_partial E x hc,
       identity_when_off_partial E x hd, length_holds_model E x hdom, vary_kept_partial E x hdom hb]
 
 theorem Statement_false : ¬ Statement := fun h => by
-  have := h toyExt toyExt_lawful witnessA
-  have hf : holds toyExt witnessA (respond toyExt witnessA) = false := by decide
+  have := h toyExt toyExt_lawful witnessB
+  have hf : holds toyExt witnessB (respond toyExt witnessB) = false := by decide
   rw [hf] at this
   cases this
 
-/-- non-vacuity of `holds_partial`: a gunzip + Brotli exchange outside all four classes -/
+/-- non-vacuity of `holds_partial`: a gunzip + Brotli exchange outside all three classes -/
 def okExchange : Input :=
   { flag := true, ae := b!"gzip, deflate, br",
     originHeaders := Header.add (Header.add (Header.add [] kContentEncoding b!"gzip") kVary b!"Origin") kContentLength b!"26",
     originBody := toyExt.gzipEnc b!"hello" }
 
-example : inClass_C06_a okExchange = false ∧ inClass_C06_b okExchange = false ∧ inClass_C06_c okExchange = false ∧
+example : inClass_C06_b okExchange = false ∧ inClass_C06_c okExchange = false ∧
     inClass_C06_d okExchange = false ∧ inDomain toyExt okExchange = true ∧ decision okExchange = ⟨.brotli, .gzip⟩ ∧
     holds toyExt okExchange (respond toyExt okExchange) = true := by decide
 
